@@ -96,7 +96,7 @@ def summarise(r):
         classes[c] = classes.get(c, 0) + 1
     counters = r['counters']
     faults = sum(counters.get(k, 0) for k in ('preempt', 'user_abort', 'reenter', 'scramble', 'gc',
-                                                'name_reuse', 'ctor_fail', 'postprocess', 'clock_jump'))
+                                                'name_reuse', 'ctor_fail', 'postprocess', 'clock_jump', 'burst'))
     nontrivial = faults > 0 and any(v >= 2 for v in per_mod.values())
     ops_key = sorted(U.op_key(op) if op['op'] == 'parse' else json.dumps(op, sort_keys=True)
                      for ops in plan['clients'] for op in ops)
@@ -206,9 +206,9 @@ def coverage(agg):
         'operations_executed': agg['ops'],
         'operations_judged_against_isolated_reference': agg['judged'],
         'faults_fired_by_kind': {k: agg['counters'].get(k, 0) for k in
-                                 ('preempt', 'user_abort', 'reenter', 'scramble', 'gc', 'name_reuse', 'ctor_fail', 'postprocess', 'clock_jump')},
+                                 ('preempt', 'user_abort', 'reenter', 'scramble', 'gc', 'name_reuse', 'ctor_fail', 'postprocess', 'clock_jump', 'burst')},
         'probes': {k: v for k, v in agg['counters'].items()
-                   if k not in ('preempt', 'user_abort', 'reenter', 'scramble', 'gc', 'name_reuse', 'ctor_fail', 'postprocess', 'clock_jump')},
+                   if k not in ('preempt', 'user_abort', 'reenter', 'scramble', 'gc', 'name_reuse', 'ctor_fail', 'postprocess', 'clock_jump', 'burst')},
         'outcome_classes': agg['classes'],
         'policies': agg['policies'],
         'clients_per_run': agg['clients'],
